@@ -4,8 +4,10 @@ import (
 	"bytes"
 	"encoding/json"
 	"fmt"
+	"math"
 	"os"
 	"os/exec"
+	"path/filepath"
 	"sort"
 	"strings"
 	"sync"
@@ -109,7 +111,44 @@ func init() {
 			f.ImportNames(map[string]string{"e/yaml.v3": "yaml3", "d/util": "util"})
 			f.Var().Id("_").Op("=").List(jen.Qual("e/yaml.v3", "Marshal"), jen.Qual("d/util", "X"))
 			return c09Out(f)
-		}})
+		}},
+		// numeric literals that compare equal as Go values but are written differently
+		c09Job{"zero-literals", func(k func(jen.Code) jen.Code) string {
+			f := jen.NewFile("z")
+			f.Var().Id("_").Op("=").Index().Any().Values(jen.Lit(0.0), jen.Lit(float32(0)), jen.Lit(complex(0, 0)), jen.Lit(complex64(0)), jen.Lit(1.0), jen.Lit(uint8(1)), jen.Lit(int64(1)), jen.Lit(true))
+			return c09Out(f)
+		}},
+		c09Job{"negative-zero-literals", func(k func(jen.Code) jen.Code) string {
+			nz := math.Copysign(0, -1)
+			f := jen.NewFile("z")
+			f.Var().Id("_").Op("=").Index().Any().Values(jen.Lit(nz), jen.Lit(float32(nz)), jen.Lit(complex(nz, nz)), jen.Lit(complex64(complex(nz, 0))), jen.Lit(1), jen.Lit(int8(1)), jen.Lit(uint64(1)), jen.Lit("true"))
+			return c09Out(f)
+		}},
+		// File.Save of two Files into one directory
+		c09Job{"save-a", func(k func(jen.Code) jen.Code) string { return c09Save("a.go", "save_a") }},
+		c09Job{"save-b", func(k func(jen.Code) jen.Code) string { return c09Save("b.go", "save_b") }})
+}
+
+// c09Save saves a small File under dir/<name> (dir = the run's scratch directory) and returns
+// what the saved file contains.
+func c09Save(name, pkg string) string {
+	dir := filepath.Join(os.Getenv("VERIF_SCRATCH"), "c09save")
+	if os.Getenv("VERIF_SCRATCH") == "" {
+		dir = filepath.Join(os.TempDir(), fmt.Sprintf("verif-c09save-%d", os.Getpid()))
+	}
+	os.MkdirAll(dir, 0o755)
+	f := jen.NewFile(pkg)
+	f.Var().Id("_").Op("=").Qual("a/f", "X").Call(jen.Lit(pkg))
+	target := filepath.Join(dir, name)
+	o := jh.Catch(func() (string, error) { return "", f.Save(target) })
+	if !o.OK() {
+		return "SAVE FAILED: " + jh.Short(strings.ReplaceAll(o.String(), dir, "<dir>"), 200)
+	}
+	b, err := os.ReadFile(target)
+	if err != nil {
+		return "READ BACK FAILED: " + strings.ReplaceAll(err.Error(), dir, "<dir>")
+	}
+	return string(b)
 }
 
 func c09Bodies(ctl *env.Controller, idx []int) []func() string {
@@ -128,10 +167,14 @@ func c09Bodies(ctl *env.Controller, idx []int) []func() string {
 	return out
 }
 
-// C09Solo prints the outputs of every job run alone in this (pristine) process, as JSON.
-func C09Solo() {
+// C09Solo prints, as JSON, the outputs of the named jobs (default: all) run in this (pristine)
+// process; the check starts one process per job, so that nothing at all precedes a solo run.
+func C09Solo(only ...string) {
 	outs := map[string]string{}
 	for i, j := range c09Jobs {
+		if len(only) > 0 && only[0] != j.name {
+			continue
+		}
 		outs[j.name] = c09Bodies(nil, []int{i})[0]()
 	}
 	json.NewEncoder(os.Stdout).Encode(outs)
@@ -301,6 +344,11 @@ func runC09(r *ev.Recorder) {
 	}
 	bound := 2
 	jobSets := [][]int{{0, 1}, {1, 2}, {0, 2}, {3, 0}, {1, 4}, {2, 4}, {3, 2}, {1, 1}, {0, 0}, {2, 2}, {5, 4}, {6, 7}, {7, 7}, {7, 1}}
+	byName := map[string]int{}
+	for i, j := range c09Jobs {
+		byName[j.name] = i
+	}
+	jobSets = append(jobSets, []int{byName["zero-literals"], byName["negative-zero-literals"]}, []int{byName["save-a"], byName["save-b"]}, []int{byName["save-a"], byName["save-a"]}, []int{byName["save-b"], byName["save-a"], byName["hinted"]})
 	if r.Tier == ev.Thorough {
 		bound = 3
 		jobSets = append(jobSets, []int{0, 1, 2}, []int{3, 1, 2}, []int{1, 2, 4}, []int{0, 3, 4}, []int{1, 0, 3})
@@ -314,8 +362,8 @@ func runC09(r *ev.Recorder) {
 		jn = append(jn, j.name)
 	}
 	r.Rule = fmt.Sprintf("(1) schedules: jobs %v (each builds and renders its own File / fragment; designed to collide on base names, hints, prefix, Dict, Case/Block, a failing render) run under the cooperative scheduler; "+
-		"scheduling points = every statement touching a package-level variable of jennifer (inserted by the instrumenter from go/types on the current tree) + job start/end; all interleavings with <= %d preemptions for %d job sets; "+
-		"package-level variables are snapshotted and restored per execution, map order pinned to canonical. Oracle: every job's output equals its solo output computed in a pristine process; and, when the package uses no synchronisation at all, "+
+		"scheduling points = every statement touching a package-level variable of jennifer or calling into os / io/ioutil (the file system, which File.Save of several Files shares; inserted by the instrumenter from go/types on the current tree) + job start/end; all interleavings with <= %d preemptions for %d job sets; "+
+		"package-level variables are snapshotted and restored per execution, map order pinned to canonical. Oracle: every job's output equals its solo output computed in a pristine process of its own (one process per job); and, when the package uses no synchronisation at all, "+
 		"no package-level variable is written by one job and accessed by another (a data race by construction). "+
 		"(2) histories: every permutation of the first five and every ordered triple of all %d jobs rendered sequentially in one process, each sequence twice; then 1500 failing and (recovered) panicking renders of unrelated Files followed by every job again; every subset of 7 shareable parts (a table of 40 composite-literal rows built with Dict, a Qual, a Case+Block, a Dict, a bare Block used after Case in one File and after If in the other, a Qual that is local to one File, two Clones of one base statement with spare capacity - one per File) "+
 		"shared between two Files of 4 configurations, rendered in both orders and twice - each output must equal that of a File built privately. "+
@@ -328,11 +376,27 @@ func runC09(r *ev.Recorder) {
 	self := os.Getenv("VERIF_SELF")
 	solo := map[string]string{}
 	if self != "" {
-		out, err := exec.Command(self, "c09solo").Output()
-		if err != nil || json.Unmarshal(out, &solo) != nil {
-			fmt.Fprintln(os.Stderr, "C09: solo process failed:", err)
-			os.Exit(2)
-		}
+		r.External(func() {
+			var wg sync.WaitGroup
+			var mu sync.Mutex
+			for _, j := range c09Jobs {
+				j := j
+				wg.Add(1)
+				go func() {
+					defer wg.Done()
+					one := map[string]string{}
+					out, err := shardCommand(self, "c09solo", j.name).Output()
+					if err != nil || json.Unmarshal(out, &one) != nil || len(one) != 1 {
+						fmt.Fprintln(os.Stderr, "C09: solo process failed:", j.name, err)
+						os.Exit(2)
+					}
+					mu.Lock()
+					solo[j.name] = one[j.name]
+					mu.Unlock()
+				}()
+			}
+			wg.Wait()
+		})
 	} else {
 		for i, j := range c09Jobs {
 			solo[j.name] = c09Bodies(nil, []int{i})[0]()
@@ -357,6 +421,10 @@ func runC09(r *ev.Recorder) {
 		}
 	}
 	for pi, perm := range seqs {
+		if stop() {
+			r.NotExhaustive("order exploration stopped early (deadline, or more than 100 violations already found)")
+			break
+		}
 		var got []string
 		for pass := 0; pass < 2; pass++ {
 			for _, i := range perm {
@@ -380,7 +448,8 @@ func runC09(r *ev.Recorder) {
 	}
 	// (2a') many failing renders in a row (invalid compositions and build-time panics that the
 	// caller recovers), then every job again
-	for i := 0; i < 1500; i++ {
+	// (skipped once violations were found: state leaking from failed renders can grow without bound)
+	for i := 0; i < 1500 && r.Violations() == 0; i++ {
 		jh.Catch(func() (string, error) {
 			f := jen.NewFile("z")
 			f.Func().Id("deep").Params().Block(jen.If(jen.True()).Block(jen.For().Block(jen.Id("x").Op("=").Index().Int().Values(jen.Lit(struct{ A int }{i})))))
@@ -517,7 +586,7 @@ func runC09(r *ev.Recorder) {
 			for v, as := range acc {
 				for _, a := range as {
 					for _, b := range as {
-						if a.job != b.job && a.write && !syncUsed && !racy[v] {
+						if a.job != b.job && a.write && !syncUsed && !racy[v] && !strings.HasPrefix(v, "<") {
 							racy[v] = true
 							r.Violate(ev.Violation{Signature: "c09:unsynchronised-write:" + v, What: fmt.Sprintf("%s: package-level variable %s is written by job %d and accessed by job %d without any synchronisation in the package", desc, v, a.job, b.job),
 								Case: ev.JSON(c09Case{Kind: "schedule", Jobs: set, Vector: c.Vector(), Desc: desc}), Detail: fmt.Sprint(trace)})
@@ -557,7 +626,7 @@ func replayC09(raw json.RawMessage) (bool, string) {
 	}
 	solo := map[string]string{}
 	if self := os.Getenv("VERIF_SELF"); self != "" {
-		out, _ := exec.Command(self, "c09solo").Output()
+		out, _ := shardCommand(self, "c09solo").Output()
 		json.Unmarshal(out, &solo)
 	}
 	if len(solo) == 0 {
